@@ -164,6 +164,13 @@ class SetFlavour(E.MapFlavour):
         pre = sorted(k for k, vs in cont[c].items() for _ in vs)
         left = sorted(k for k, vs in F[c].items() for _ in vs)
         ctx = dict(block=bi, container=c, directive=mut, before=pre[:60], handed=sorted(handed)[:60], left=left[:20])
+        # in a set, re-inserting a key that is (still or again) present is order-dependent: the exact comparisons below need
+        # every produced key to be fresh (multisets do not care)
+        g1 = [self.prod(k) for k in set(pre) if self.prod(k) is not None]
+        g2 = [self.prod(k) for k in g1 if self.prod(k) is not None]
+        fresh = self.multi or not (set(g1 + g2) & set(pre))
+        if vis != "0" and not fresh:
+            A.res.count("consume with producers: produced keys not fresh (emptiness only)")
         if vis == "0":
             # quiet consume_all: what was handed out is the contents after the pending operations; nothing may be left
             if left:
@@ -185,8 +192,11 @@ class SetFlavour(E.MapFlavour):
                     extra = [k for k in set(handed) if sorted(handed).count(k) != mh.count(k)]
                     A.oracle(f"consume_all with producing callbacks handed out a different multiset than the sequential semantics "
                              f"(differs on {sorted(extra)[:5]}; real {len(handed)} model {len(mh)})", "consume-iter-multiset", **ctx)
-            A.ask(f"consume|{self.kinds}|{vis}|{self.state_tokens(cont[c])}", chk)
-        else:
+            if fresh:
+                A.ask(f"consume|{self.kinds}|{vis}|{self.state_tokens(cont[c])}", chk)
+            elif not set(pre) <= set(handed):
+                A.oracle("an element present before consume_all was never handed out", "consume-missed", **ctx)
+        elif fresh:
             # one consume_all with producing callbacks: ledger
             if sorted(handed + left) != sorted(pre + produced):
                 A.oracle(f"consume_all ledger broken: handed {len(handed)} + left {len(left)} != before {len(pre)} + produced {len(produced)}",
@@ -221,7 +231,7 @@ class SetFlavour(E.MapFlavour):
 FLAVOURS = [SetFlavour(w, k) for w in ("set", "multiset") for k in ("s", "i")]
 ASSUME = ["every operation is executed exactly once, atomically, on owner(key) before the barrier returns (C01/C02/C08; Dist.Complete)",
           "std::hash is a parameter (owners are read from the real run); the order of elements inside std::multiset is not compared",
-          "runs aborted by the messaging layer (comm.ipp assertion, deadlock, livelock) are C03's subject and are skipped here, counted in the distribution"]
+          "runs aborted by the messaging layer (comm.ipp assertion, deadlock) are C03's subject and are skipped here, counted in the distribution"]
 
 
 def run(tier, seed, model_ok=True):
